@@ -536,7 +536,7 @@ impl Prop for C08 {
             ];
             for (lab, text) in rep {
                 // (quadratic or worse run time in the number of items is a hang only beyond what real specifications contain)
-                if n > 4096 && (matches!(lab, "enumerals" | "components" | "alternatives" | "named-numbers" | "assignments" | "import-symbols" | "list-value") || (!tier.thorough() && lab == "oid-arcs")) {
+                if n > 4096 && (matches!(lab, "enumerals" | "components" | "alternatives" | "named-numbers" | "assignments" | "import-symbols" | "list-value") || (!tier.thorough() && !matches!(lab, "doubled-quotes" | "block-comment-length" | "line-comments" | "blank-lines" | "cstring-chars"))) {
                     continue;
                 }
                 push("repetition", format!("repetition:{lab}:depth={n}"), text, "both");
